@@ -1118,4 +1118,502 @@ theorem sel_single_arg (sp : Spec) (h : 1 ≤ sp.idx) : sel false [sp] = [sp] :=
 theorem setLow_zero (n x : Nat) : setLow 0 n x = x % 256 ^ n := by
   unfold setLow; simp
 
+/-! ## option sources: the writer's and the reader's spec lists -/
+
+/-- a retval action carries no location (`retval%…` means nothing to mcount_arch_get_retval) -/
+def SpecSrcOk (sp : Spec) : Prop := sp.isRet = true → sp.ty = 0
+
+def ListOk (l : List LSpec) : Prop := ∀ o ∈ l, SpecSrcOk o.sp
+
+theorem sameKey_isRet (a o : Spec) (ha : SpecSrcOk a) (ho : SpecSrcOk o) (h : sameKey a o = true) :
+    a.isRet = o.isRet := by
+  unfold sameKey at h
+  unfold SpecSrcOk Spec.isRet at *
+  rw [Bool.and_eq_true] at h
+  obtain ⟨hty, hk⟩ := h
+  have hty : a.ty = o.ty := by simpa using hty
+  by_cases ha0 : a.idx = 0
+  · have h0 : a.ty = 0 := ha (by simp [ha0])
+    rw [h0, if_pos (by omega)] at hk
+    have : a.idx = o.idx := by simpa using hk
+    simp [ha0, ← this]
+  · by_cases ho0 : o.idx = 0
+    · have h0 : o.ty = 0 := ho (by simp [ho0])
+      rw [hty, h0, if_pos (by omega)] at hk
+      have : a.idx = o.idx := by simpa using hk
+      omega
+    · rw [beq_false_of_ne ha0, beq_false_of_ne ho0]
+
+theorem addArgSpec_nil (e : Bool) (a : Spec) : addArgSpec e [] a = [⟨a, e⟩] := rfl
+theorem addArgSpec_cons (e : Bool) (o : LSpec) (r : List LSpec) (a : Spec) :
+    addArgSpec e (o :: r) a = if sameKey a o.sp then overwrite o a e :: r else o :: addArgSpec e r a := rfl
+
+theorem overwrite_isRet (o : LSpec) (a : Spec) (e : Bool) : (overwrite o a e).sp.isRet = o.sp.isRet := by
+  unfold overwrite
+  split <;> rfl
+
+theorem overwrite_ok (o : LSpec) (a : Spec) (e : Bool) (ho : SpecSrcOk o.sp)
+    (h : sameKey a o.sp = true) : SpecSrcOk (overwrite o a e).sp := by
+  intro hr
+  rw [overwrite_isRet] at hr
+  have h1 := ho hr
+  unfold overwrite
+  split
+  · show a.ty = 0
+    unfold sameKey at h
+    simp only [Bool.and_eq_true, beq_iff_eq] at h
+    omega
+  · exact h1
+
+theorem addArgSpec_ok (e : Bool) (l : List LSpec) (a : Spec) (ha : SpecSrcOk a) (hl : ListOk l) :
+    ListOk (addArgSpec e l a) := by
+  induction l with
+  | nil => intro o ho; simp [addArgSpec_nil] at ho; subst ho; exact ha
+  | cons o r ih =>
+    rw [addArgSpec_cons]
+    split
+    · rename_i hk
+      intro x hx
+      simp only [List.mem_cons] at hx
+      rcases hx with rfl | hx
+      · exact overwrite_ok o a e (hl o (by simp)) hk
+      · exact hl x (by simp [hx])
+    · intro x hx
+      simp only [List.mem_cons] at hx
+      rcases hx with rfl | hx
+      · exact hl _ (by simp)
+      · exact ih (fun y hy => hl y (by simp [hy])) x hx
+
+/-- the entries of one class (arguments / return values) -/
+def part (b : Bool) (l : List LSpec) : List LSpec := l.filter (fun o => o.sp.isRet == b)
+
+theorem part_cons (b : Bool) (o : LSpec) (r : List LSpec) :
+    part b (o :: r) = if o.sp.isRet == b then o :: part b r else part b r := by
+  unfold part; rw [List.filter_cons]
+
+theorem part_addArgSpec (b e : Bool) (l : List LSpec) (a : Spec) (ha : SpecSrcOk a) (hl : ListOk l) :
+    part b (addArgSpec e l a) = if a.isRet == b then addArgSpec e (part b l) a else part b l := by
+  induction l with
+  | nil =>
+    rw [addArgSpec_nil, part_cons]
+    show (if (a.isRet == b) = true then _ else _) = _
+    split <;> rfl
+  | cons o r ih =>
+    have ho : SpecSrcOk o.sp := hl o (by simp)
+    have hr : ListOk r := fun y hy => hl y (by simp [hy])
+    have ih := ih hr
+    rw [addArgSpec_cons]
+    by_cases hk : sameKey a o.sp = true
+    · have hro := sameKey_isRet a o.sp ha ho hk
+      rw [if_pos hk, part_cons, part_cons, overwrite_isRet, ← hro]
+      by_cases hb : (a.isRet == b) = true
+      · simp only [if_pos hb]
+        rw [addArgSpec_cons, if_pos hk]
+      · simp only [if_neg hb]
+    · rw [if_neg hk, part_cons, part_cons, ih]
+      by_cases hob : (o.sp.isRet == b) = true
+      · simp only [if_pos hob]
+        by_cases hb : (a.isRet == b) = true
+        · simp only [if_pos hb]
+          rw [addArgSpec_cons, if_neg hk]
+        · simp only [if_neg hb]
+      · simp only [if_neg hob]
+
+def AddsOk (adds : List (Bool × Spec)) : Prop := ∀ a ∈ adds, SpecSrcOk a.2
+
+theorem part_buildFrom (b : Bool) (adds : List (Bool × Spec)) (l : List LSpec) (ha : AddsOk adds) (hl : ListOk l) :
+    part b (buildFrom l adds) = buildFrom (part b l) (adds.filter (fun a => a.2.isRet == b)) := by
+  induction adds generalizing l with
+  | nil => rfl
+  | cons a r ih =>
+    have h1 : SpecSrcOk a.2 := ha a (by simp)
+    have h2 : AddsOk r := fun x hx => ha x (by simp [hx])
+    unfold buildFrom at *
+    simp only [List.foldl_cons, List.filter_cons]
+    rw [ih (addArgSpec a.1 l a.2) h2 (addArgSpec_ok a.1 l a.2 h1 hl), part_addArgSpec b a.1 l a.2 h1 hl]
+    split <;> simp_all
+
+theorem part_build (b : Bool) (adds : List (Bool × Spec)) (ha : AddsOk adds) :
+    part b (build adds) = build (adds.filter (fun a => a.2.isRet == b)) := by
+  unfold build
+  rw [part_buildFrom b adds [] ha (by intro o ho; cases ho)]
+  rfl
+
+theorem layout_eq_part (b : Bool) (l : List LSpec) : layout b l = (part b l).map (·.sp) := by
+  unfold layout sel part
+  rw [List.filter_map]
+  rfl
+
+
+/-! ### the two sequences of add_arg_spec calls -/
+
+/-- what the auto-args table / DWARF know about a function: argument specs for arguments,
+    return-value specs for return values -/
+def AutoOk (auto : Nat → Bool → List Spec) : Prop :=
+  ∀ f b, ∀ sp ∈ auto f b, sp.isRet = b ∧ SpecSrcOk sp
+
+def ItemsOk (items : List Item) : Prop := ∀ it ∈ items, ∀ sp ∈ it.specs, SpecSrcOk sp
+
+theorem filter_compat_trig (l : List Spec) : l.filter (compat .trig) = l := by
+  induction l with
+  | nil => rfl
+  | cons a r ih => rw [List.filter_cons]; simp only [compat, if_true]; rw [ih]
+
+theorem filter_all {α : Type} (p : α → Bool) (l : List α) (h : ∀ x ∈ l, p x = true) : l.filter p = l := by
+  induction l with
+  | nil => rfl
+  | cons a r ih =>
+    rw [List.filter_cons, if_pos (h a (by simp)), ih (fun x hx => h x (by simp [hx]))]
+
+theorem filter_none {α : Type} (p : α → Bool) (l : List α) (h : ∀ x ∈ l, p x = false) : l.filter p = [] := by
+  induction l with
+  | nil => rfl
+  | cons a r ih =>
+    rw [List.filter_cons, h a (by simp), ih (fun x hx => h x (by simp [hx]))]
+    rfl
+
+theorem filter_tag (p : Spec → Bool) (e : Bool) (l : List Spec) :
+    (l.map (fun sp => (e, sp))).filter (fun a => p a.2) = (l.filter p).map (fun sp => (e, sp)) := by
+  induction l with
+  | nil => rfl
+  | cons a r ih =>
+    simp only [List.map_cons, List.filter_cons]
+    split <;> simp [ih]
+
+theorem filter_idem {α : Type} (p : α → Bool) (l : List α) : (l.filter p).filter p = l.filter p :=
+  filter_all p _ (fun x hx => (List.mem_filter.mp hx).2)
+
+/-- arguments: what a trigger item contributes at the writer = what its extracted items contribute at the reader -/
+theorem itemAdds_trig_args (auto : Nat → Bool → List Spec) (hauto : AutoOk auto) (xf : XFix) (hx : xf.auto = true)
+    (it : Item) (f : Nat) :
+    (itemAdds auto .trig it f).filter (fun a => !a.2.isRet)
+      = (xArgs xf it).flatMap (fun it' => itemAdds auto .arg it' f) := by
+  have hA : ∀ sp ∈ auto f false, (!sp.isRet) = true := fun sp h => by rw [(hauto f false sp h).1]; rfl
+  have hR : ∀ sp ∈ auto f true, (!sp.isRet) = false := fun sp h => by rw [(hauto f true sp h).1]; rfl
+  unfold itemAdds xArgs xAuto
+  by_cases hf : it.fns.contains f = true
+  · rw [if_pos hf, filter_compat_trig, filter_tag (fun sp => !sp.isRet)]
+    cases hs : it.specs with
+    | nil =>
+      cases ha : it.autoArgs
+      · simp
+      · have hf' : f ∈ it.fns := by simpa using hf
+        simp [hf', compat, filter_all _ _ hA, filter_none _ _ hR]
+    | cons s r =>
+      rw [hx]
+      simp only [List.isEmpty_cons, Bool.false_eq_true, if_false, Bool.not_false, Bool.and_true, Bool.not_true,
+        Bool.and_false, List.append_nil]
+      by_cases he : ((s :: r).filter (fun sp => !sp.isRet)).isEmpty = true
+      · rw [if_pos he]
+        rw [List.isEmpty_iff.mp he]
+        rfl
+      · rw [if_neg he]
+        simp only [List.flatMap_cons, List.flatMap_nil, List.append_nil, hf, if_true]
+        have : ((s :: r).filter (fun sp => !sp.isRet)).filter (compat .arg) = (s :: r).filter (fun sp => !sp.isRet) :=
+          filter_idem _ _
+        rw [this, if_neg he]
+  · rw [if_neg hf]
+    simp only [List.filter_nil]
+    symm
+    rw [List.flatMap_eq_nil_iff]
+    intro it' hit'
+    have : it'.fns = it.fns := by
+      simp only [List.mem_append] at hit'
+      rcases hit' with h | h
+      · split at h
+        · cases h
+        · simp at h; subst h; rfl
+      · split at h
+        · simp at h; subst h; rfl
+        · cases h
+    rw [this, if_neg hf]
+
+/-- return values, with the format kept (C09-TRIGRET repaired) -/
+theorem itemAdds_trig_rets (auto : Nat → Bool → List Spec) (hauto : AutoOk auto) (xf : XFix) (hx : xf.auto = true)
+    (hr : xf.ret = true) (it : Item) (f : Nat) :
+    (itemAdds auto .trig it f).filter (fun a => a.2.isRet)
+      = (xRets xf it).flatMap (fun it' => itemAdds auto .ret it' f) := by
+  have hA : ∀ sp ∈ auto f false, sp.isRet = false := fun sp h => (hauto f false sp h).1
+  have hR : ∀ sp ∈ auto f true, sp.isRet = true := fun sp h => (hauto f true sp h).1
+  unfold itemAdds xRets xAuto
+  by_cases hf : it.fns.contains f = true
+  · rw [if_pos hf, filter_compat_trig, filter_tag (fun sp => sp.isRet)]
+    cases hs : it.specs with
+    | nil =>
+      cases ha : it.autoArgs
+      · simp
+      · have hf' : f ∈ it.fns := by simpa using hf
+        simp [hf', compat, filter_all _ _ hR, filter_none _ _ hA]
+    | cons s r =>
+      rw [hx, hr]
+      simp only [List.isEmpty_cons, Bool.false_eq_true, if_false, Bool.not_false, Bool.and_true, Bool.not_true,
+        Bool.and_false, List.append_nil, if_true]
+      by_cases he : ((s :: r).filter (fun sp => sp.isRet)).isEmpty = true
+      · rw [if_pos he]
+        rw [List.isEmpty_iff.mp he]
+        rfl
+      · rw [if_neg he]
+        simp only [List.flatMap_cons, List.flatMap_nil, List.append_nil, hf, if_true]
+        have : ((s :: r).filter (fun sp => sp.isRet)).filter (compat .ret) = (s :: r).filter (fun sp => sp.isRet) :=
+          filter_idem _ _
+        rw [this, if_neg he]
+  · rw [if_neg hf]
+    simp only [List.filter_nil]
+    symm
+    rw [List.flatMap_eq_nil_iff]
+    intro it' hit'
+    have : it'.fns = it.fns := by
+      simp only [List.mem_append] at hit'
+      rcases hit' with h | h
+      · split at h
+        · cases h
+        · simp at h; subst h; rfl
+      · split at h
+        · simp at h; subst h; rfl
+        · cases h
+    rw [this, if_neg hf]
+
+
+def argF (a : Bool × Spec) : Bool := !a.2.isRet
+def retF (a : Bool × Spec) : Bool := a.2.isRet
+
+theorem addsOf_append (auto : Nat → Bool → List Spec) (s : Src) (x y : List Item) (f : Nat) :
+    addsOf auto s (x ++ y) f = addsOf auto s x f ++ addsOf auto s y f := by
+  unfold addsOf; rw [List.flatMap_append]
+
+theorem addsOf_flatMap (auto : Nat → Bool → List Spec) (s : Src) (T : List Item) (g : Item → List Item) (f : Nat) :
+    addsOf auto s (T.flatMap g) f = T.flatMap (fun it => (g it).flatMap (fun it' => itemAdds auto s it' f)) := by
+  unfold addsOf; rw [List.flatMap_assoc]
+
+theorem addsOf_filter (auto : Nat → Bool → List Spec) (s : Src) (T : List Item) (f : Nat) (p : Bool × Spec → Bool) :
+    (addsOf auto s T f).filter p = T.flatMap (fun it => (itemAdds auto s it f).filter p) := by
+  unfold addsOf; rw [List.filter_flatMap]
+
+/-- everything -A contributes is an argument spec, everything -R contributes a return-value spec -/
+theorem itemAdds_arg_class (auto : Nat → Bool → List Spec) (hauto : AutoOk auto) (it : Item) (f : Nat) :
+    ∀ a ∈ itemAdds auto .arg it f, a.2.isRet = false := by
+  intro a ha
+  unfold itemAdds at ha
+  split at ha
+  · simp only [List.mem_map] at ha
+    obtain ⟨sp, hsp, rfl⟩ := ha
+    split at hsp
+    · simp at hsp
+      exact (hauto f false sp hsp).1
+    · have := (List.mem_filter.mp hsp).2
+      simpa [compat] using this
+  · cases ha
+
+theorem itemAdds_ret_class (auto : Nat → Bool → List Spec) (hauto : AutoOk auto) (it : Item) (f : Nat) :
+    ∀ a ∈ itemAdds auto .ret it f, a.2.isRet = true := by
+  intro a ha
+  unfold itemAdds at ha
+  split at ha
+  · simp only [List.mem_map] at ha
+    obtain ⟨sp, hsp, rfl⟩ := ha
+    split at hsp
+    · simp at hsp
+      exact (hauto f true sp hsp).1
+    · have := (List.mem_filter.mp hsp).2
+      simpa [compat] using this
+  · cases ha
+
+theorem addsOf_arg_argF (auto : Nat → Bool → List Spec) (hauto : AutoOk auto) (A : List Item) (f : Nat) :
+    (addsOf auto .arg A f).filter argF = addsOf auto .arg A f ∧ (addsOf auto .arg A f).filter retF = [] := by
+  have h : ∀ a ∈ addsOf auto .arg A f, a.2.isRet = false := by
+    intro a ha
+    unfold addsOf at ha
+    obtain ⟨it, _, hit⟩ := List.mem_flatMap.mp ha
+    exact itemAdds_arg_class auto hauto it f a hit
+  exact ⟨filter_all _ _ (fun a ha => by unfold argF; rw [h a ha]; rfl),
+         filter_none _ _ (fun a ha => by unfold retF; exact h a ha)⟩
+
+theorem addsOf_ret_retF (auto : Nat → Bool → List Spec) (hauto : AutoOk auto) (R : List Item) (f : Nat) :
+    (addsOf auto .ret R f).filter retF = addsOf auto .ret R f ∧ (addsOf auto .ret R f).filter argF = [] := by
+  have h : ∀ a ∈ addsOf auto .ret R f, a.2.isRet = true := by
+    intro a ha
+    unfold addsOf at ha
+    obtain ⟨it, _, hit⟩ := List.mem_flatMap.mp ha
+    exact itemAdds_ret_class auto hauto it f a hit
+  exact ⟨filter_all _ _ (fun a ha => by unfold retF; exact h a ha),
+         filter_none _ _ (fun a ha => by unfold argF; rw [h a ha]; rfl)⟩
+
+/-- the argument specs the reader adds, in order = the argument specs the writer adds, in order -/
+theorem adds_args_agree (auto : Nat → Bool → List Spec) (hauto : AutoOk auto) (xf : XFix) (hx : xf.auto = true)
+    (T A R : List Item) (f : Nat) :
+    (readerAdds auto xf T A R f).filter argF = (writerAdds auto T A R f).filter argF := by
+  unfold readerAdds readerAddsOf writerAdds infoArgs infoRets
+  simp only [List.filter_append]
+  rw [(addsOf_ret_retF auto hauto R f).2, (addsOf_arg_argF auto hauto A f).1,
+    (addsOf_ret_retF auto hauto (extractRets xf T ++ R) f).2]
+  have hold : (if oldPass xf (extractArgs xf T ++ A) (extractRets xf T ++ R) = true
+      then addsOf auto .ret (extractArgs xf T ++ A) f else []).filter argF = [] := by
+    split
+    · exact (addsOf_ret_retF auto hauto _ f).2
+    · rfl
+  rw [hold, addsOf_append, List.filter_append, (addsOf_arg_argF auto hauto A f).1,
+    (addsOf_arg_argF auto hauto (extractArgs xf T) f).1]
+  simp only [List.append_nil]
+  congr 1
+  unfold extractArgs
+  rw [addsOf_flatMap, addsOf_filter]
+  congr 1
+  funext it
+  exact (itemAdds_trig_args auto hauto xf hx it f).symm
+
+theorem adds_rets_agree (auto : Nat → Bool → List Spec) (hauto : AutoOk auto) (xf : XFix) (hx : xf.auto = true)
+    (hr : xf.ret = true) (T A R : List Item) (f : Nat)
+    (hold : oldPass xf (infoArgs xf T A) (infoRets xf T R) = false) :
+    (readerAdds auto xf T A R f).filter retF = (writerAdds auto T A R f).filter retF := by
+  unfold readerAdds readerAddsOf writerAdds
+  rw [hold]
+  unfold infoArgs infoRets
+  simp only [List.filter_append, Bool.false_eq_true, if_false, List.append_nil]
+  rw [(addsOf_arg_argF auto hauto A f).2, (addsOf_arg_argF auto hauto (extractArgs xf T ++ A) f).2,
+    addsOf_append, List.filter_append, (addsOf_ret_retF auto hauto R f).1,
+    (addsOf_ret_retF auto hauto (extractRets xf T) f).1]
+  simp only [List.nil_append, List.append_nil]
+  congr 1
+  unfold extractRets
+  rw [addsOf_flatMap, addsOf_filter]
+  congr 1
+  funext it
+  exact (itemAdds_trig_rets auto hauto xf hx hr it f).symm
+
+/-- when (with C09-OLDFMT repaired) the old-format pass runs, there is no `retspec:` line: no trigger and
+    no -R asked for a return value, so the writer's list has no return-value entry -/
+theorem adds_rets_empty (auto : Nat → Bool → List Spec) (hauto : AutoOk auto) (xf : XFix) (hx : xf.auto = true)
+    (hr : xf.ret = true) (hc : xf.compat = true) (T A R : List Item) (f : Nat)
+    (hold : oldPass xf (infoArgs xf T A) (infoRets xf T R) = true) :
+    (writerAdds auto T A R f).filter retF = [] := by
+  unfold oldPass at hold
+  rw [hc] at hold
+  simp only [Bool.true_and, Bool.and_eq_true, Bool.not_eq_true', Bool.not_eq_false'] at hold
+  have hrs : infoRets xf T R = [] := List.isEmpty_iff.mp hold.2
+  unfold infoRets at hrs
+  obtain ⟨h1, h2⟩ := List.append_eq_nil_iff.mp hrs
+  unfold writerAdds
+  simp only [List.filter_append]
+  rw [(addsOf_arg_argF auto hauto A f).2, h2]
+  simp only [List.append_nil]
+  rw [addsOf_filter]
+  have : (fun it => (itemAdds auto .trig it f).filter retF) =
+      (fun it => (xRets xf it).flatMap (fun it' => itemAdds auto .ret it' f)) := by
+    funext it
+    exact itemAdds_trig_rets auto hauto xf hx hr it f
+  rw [this, ← addsOf_flatMap]
+  show addsOf auto .ret (extractRets xf T) f ++ addsOf auto .ret [] f = []
+  rw [h1]
+  rfl
+
+theorem defret_ok : SpecSrcOk DEFRET := fun _ => rfl
+
+theorem itemAdds_ok (auto : Nat → Bool → List Spec) (hauto : AutoOk auto) (s : Src) (it : Item)
+    (hit : ∀ sp ∈ it.specs, SpecSrcOk sp) (f : Nat) : AddsOk (itemAdds auto s it f) := by
+  intro a ha
+  unfold itemAdds at ha
+  split at ha
+  · simp only [List.mem_map] at ha
+    obtain ⟨sp, hsp, rfl⟩ := ha
+    split at hsp
+    · simp only [List.mem_append] at hsp
+      rcases hsp with h | h
+      · split at h
+        · exact (hauto f false sp h).2
+        · cases h
+      · split at h
+        · exact (hauto f true sp h).2
+        · cases h
+    · exact hit sp (List.mem_filter.mp hsp).1
+  · cases ha
+
+theorem addsOf_ok (auto : Nat → Bool → List Spec) (hauto : AutoOk auto) (s : Src) (items : List Item)
+    (hi : ItemsOk items) (f : Nat) : AddsOk (addsOf auto s items f) := by
+  intro a ha
+  unfold addsOf at ha
+  obtain ⟨it, hit, h⟩ := List.mem_flatMap.mp ha
+  exact itemAdds_ok auto hauto s it (hi it hit) f a h
+
+theorem addsOk_append (x y : List (Bool × Spec)) (hx : AddsOk x) (hy : AddsOk y) : AddsOk (x ++ y) := by
+  intro a ha
+  rcases List.mem_append.mp ha with h | h
+  · exact hx a h
+  · exact hy a h
+
+theorem itemsOk_append (x y : List Item) (hx : ItemsOk x) (hy : ItemsOk y) : ItemsOk (x ++ y) := by
+  intro a ha
+  rcases List.mem_append.mp ha with h | h
+  · exact hx a h
+  · exact hy a h
+
+theorem xAuto_ok (xf : XFix) (it : Item) : ItemsOk (xAuto xf it) := by
+  intro x hx sp hsp
+  unfold xAuto at hx
+  split at hx
+  · simp at hx; subst hx; cases hsp
+  · cases hx
+
+theorem extractArgs_ok (xf : XFix) (T : List Item) (hT : ItemsOk T) : ItemsOk (extractArgs xf T) := by
+  intro x hx
+  unfold extractArgs at hx
+  obtain ⟨it, hit, h⟩ := List.mem_flatMap.mp hx
+  unfold xArgs at h
+  rcases List.mem_append.mp h with h | h
+  · split at h
+    · cases h
+    · simp at h; subst h
+      intro sp hsp
+      exact hT it hit sp (List.mem_filter.mp hsp).1
+  · exact xAuto_ok xf it x h
+
+theorem extractRets_ok (xf : XFix) (T : List Item) (hT : ItemsOk T) : ItemsOk (extractRets xf T) := by
+  intro x hx
+  unfold extractRets at hx
+  obtain ⟨it, hit, h⟩ := List.mem_flatMap.mp hx
+  unfold xRets at h
+  rcases List.mem_append.mp h with h | h
+  · split at h
+    · cases h
+    · simp at h; subst h
+      intro sp hsp
+      simp only at hsp
+      split at hsp
+      · exact hT it hit sp (List.mem_filter.mp hsp).1
+      · simp at hsp; subst hsp; exact defret_ok
+  · exact xAuto_ok xf it x h
+
+theorem writerAdds_ok (auto : Nat → Bool → List Spec) (hauto : AutoOk auto) (T A R : List Item)
+    (hT : ItemsOk T) (hA : ItemsOk A) (hR : ItemsOk R) (f : Nat) : AddsOk (writerAdds auto T A R f) :=
+  addsOk_append _ _ (addsOk_append _ _ (addsOf_ok auto hauto _ T hT f) (addsOf_ok auto hauto _ A hA f))
+    (addsOf_ok auto hauto _ R hR f)
+
+theorem readerAdds_ok (auto : Nat → Bool → List Spec) (hauto : AutoOk auto) (xf : XFix) (T A R : List Item)
+    (hT : ItemsOk T) (hA : ItemsOk A) (hR : ItemsOk R) (f : Nat) : AddsOk (readerAdds auto xf T A R f) := by
+  have ha : ItemsOk (infoArgs xf T A) := itemsOk_append _ _ (extractArgs_ok xf T hT) hA
+  have hr : ItemsOk (infoRets xf T R) := itemsOk_append _ _ (extractRets_ok xf T hT) hR
+  unfold readerAdds readerAddsOf
+  refine addsOk_append _ _ (addsOk_append _ _ (addsOf_ok auto hauto _ _ ha f) (addsOf_ok auto hauto _ _ hr f)) ?_
+  split
+  · exact addsOf_ok auto hauto _ _ ha f
+  · intro a h; cases h
+
+theorem part_false_filter (adds : List (Bool × Spec)) :
+    adds.filter (fun a => a.2.isRet == false) = adds.filter argF := by
+  congr 1; funext a; unfold argF; cases a.2.isRet <;> rfl
+
+theorem part_true_filter (adds : List (Bool × Spec)) :
+    adds.filter (fun a => a.2.isRet == true) = adds.filter retF := by
+  congr 1; funext a; unfold retF; cases a.2.isRet <;> rfl
+
+/-! ## dump (raw) -/
+
+theorem dumpRaw_fixed (size : Nat) (data : List Byte) :
+    (dumpRaw true size data).1 = ofLe (data.take size) ∧ (dumpRaw true size data).2 ≤ 8 := by
+  unfold dumpRaw
+  by_cases h : size > 8
+  · simp [h]
+  · have h8 : min size 8 = size := by omega
+    simp [h, h8]
+    omega
+
 end Uft.Argbuf
